@@ -6,7 +6,10 @@ package props
 
 import (
 	"context"
+	"crypto/tls"
+	"encoding/base64"
 	"encoding/json"
+	"encoding/pem"
 	"fmt"
 	"io"
 	"net"
@@ -49,12 +52,14 @@ func fakeMain(specJSON string) {
 		}
 	}()
 	var ln net.Listener
+	announced := ""
 	subst := func(b []byte) []byte {
 		if ln == nil {
 			return b
 		}
 		s := strings.ReplaceAll(string(b), "{NET}", ln.Addr().Network())
 		s = strings.ReplaceAll(s, "{ADDR}", ln.Addr().String())
+		s = strings.ReplaceAll(s, "{CERT}", announced)
 		return []byte(s)
 	}
 	for _, st := range spec.Steps {
@@ -77,6 +82,47 @@ func fakeMain(specJSON string) {
 			}
 		case "marker":
 			appendLine(st.Path, fmt.Sprintf("pid %d", os.Getpid()))
+		case "listen_tls", "listen_plain_impostor":
+			// impostor: announce one certificate on the handshake line, serve another (or plaintext)
+			certA, _, _ := genCertPEM("localhost")
+			blk, _ := pem.Decode(certA)
+			announced = base64.RawStdEncoding.EncodeToString(blk.Bytes)
+			l, err := net.Listen("tcp", "127.0.0.1:0")
+			if err != nil {
+				os.Exit(4)
+			}
+			ln = l
+			var tcfg *tls.Config
+			marker := st.Path
+			if st.Op == "listen_tls" {
+				certB, keyB, _ := genCertPEM("localhost")
+				pair, _ := tls.X509KeyPair(certB, keyB)
+				tcfg = &tls.Config{Certificates: []tls.Certificate{pair}}
+			}
+			go func() {
+				for {
+					c, err := l.Accept()
+					if err != nil {
+						return
+					}
+					go func(c net.Conn) {
+						defer c.Close()
+						if tcfg != nil {
+							tc := tls.Server(c, tcfg)
+							if tc.Handshake() != nil {
+								return
+							}
+							if marker != "" {
+								appendLine(marker, "tls handshake completed with a certificate that was not announced")
+							}
+							c = tc
+						}
+						// answer like something is there: echo a little, then drain
+						c.SetDeadline(time.Now().Add(5 * time.Second))
+						io.Copy(io.Discard, c)
+					}(c)
+				}
+			}()
 		case "listen":
 			var err error
 			if st.Path != "" {
